@@ -2909,10 +2909,21 @@ class SEVM:
         new_ex_true = None
         new_ex_false = None
 
-        if follow_true:
-            if target not in ex.pgm.valid_jumpdests():
-                raise InvalidJumpDestError(f"Invalid jump destination: 0x{target:X}")
+        if follow_true and target not in ex.pgm.valid_jumpdests():
+            # only the taken side fails; the fall-through side, if any, continues on its own branch
+            if follow_false:
+                new_ex_false = self.create_branch(ex, cond_false, ex.insn.next_pc)
+                if is_symbolic_cond:
+                    new_ex_false.jumpis[jid] = {
+                        True: visited[True],
+                        False: visited[False] + 1,
+                    }
+                stack.push(new_ex_false)
 
+            ex.path.append(cond_true, branching=True)
+            raise InvalidJumpDestError(f"Invalid jump destination: 0x{target:X}")
+
+        if follow_true:
             if follow_false:
                 new_ex_true = self.create_branch(ex, cond_true, target)
             else:
